@@ -240,6 +240,10 @@ impl CompressedParameterSet {
     }
 
     pub fn from<H: HashChain>(parameters: &[HssParameter<H>]) -> Result<Self, ()> {
+        if parameters.is_empty() || parameters.len() > MAX_ALLOWED_HSS_LEVELS {
+            return Err(());
+        }
+
         let mut result = CompressedParameterSet::default();
 
         for (i, parameter) in parameters.iter().enumerate() {
@@ -260,11 +264,14 @@ impl CompressedParameterSet {
     ) -> Result<ArrayVec<[HssParameter<H>; MAX_ALLOWED_HSS_LEVELS]>, ()> {
         let mut result = ArrayVec::new();
 
-        for level in 0..MAX_ALLOWED_HSS_LEVELS {
-            let parameter = self.0[level];
-
+        for &parameter in self.0.iter() {
             if parameter == PARAM_SET_END {
                 break;
+            }
+
+            // More levels than this build supports
+            if result.len() == MAX_ALLOWED_HSS_LEVELS {
+                return Err(());
             }
 
             let lms_type = parameter >> 4;
@@ -272,6 +279,13 @@ impl CompressedParameterSet {
 
             let lms = LmsAlgorithm::from(lms_type as u32);
             let lmots = LmotsAlgorithm::from(lmots_type as u32);
+
+            // Unknown type codes
+            if lms.construct_parameter::<H>().is_none()
+                || lmots.construct_parameter::<H>().is_none()
+            {
+                return Err(());
+            }
 
             result.extend_from_slice(&[HssParameter::new(lmots, lms)]);
         }
